@@ -14,9 +14,9 @@ theorem good_init (a h : Bool) : Good (init a h) = true := by
   cases a <;> cases h <;> decide
 
 theorem good_tau (s s' : St) (hi : Good s = true) (h : s' ∈ tau s) : Good s' = true := by
-  rcases s with ⟨upc, mpc, cl, ca, sess, last, auto, hooks⟩
+  rcases s with ⟨upc, mpc, cl, ca, sess, last, auto, hooks, fa, stl⟩
   simp only [tau, List.mem_append] at h
-  rcases h with ((hA | hB) | hC) | hD
+  rcases h with (((hA | hB) | hF) | hC) | hD
   · cases hooks <;> simp at hA
     cases mpc <;> simp [monHidden] at hA
     · rcases hA with rfl | rfl | rfl | rfl | rfl | rfl <;> close_inv
@@ -25,12 +25,15 @@ theorem good_tau (s s' : St) (hi : Good s = true) (h : s' ∈ tau s) : Good s' =
   · simp at hB
     rcases hB with ⟨⟨hc, hn⟩, rfl⟩
     close_inv
-  · cases upc <;> simp at hC <;> (first | (rcases hC with rfl | rfl) | subst hC) <;> close_inv
+  · simp at hF
+    rcases hF with ⟨_, rfl⟩
+    close_inv
+  · cases upc <;> simp at hC <;> (first | (rcases hC with rfl | rfl | rfl) | (rcases hC with rfl | rfl) | subst hC) <;> close_inv
   · cases mpc <;> (try (rename_i a; cases a)) <;> cases sess <;> cases ca <;> cases auto <;> simp at hD <;>
       (first | (rcases hD with rfl | rfl | rfl) | (rcases hD with rfl | rfl) | (subst hD)) <;> close_inv
 
 theorem good_obs (s s' : St) (e : Ev) (hi : Good s = true) (h : s' ∈ obs s e) : Good s' = true := by
-  rcases s with ⟨upc, mpc, cl, ca, sess, last, auto, hooks⟩
+  rcases s with ⟨upc, mpc, cl, ca, sess, last, auto, hooks, fa, stl⟩
   simp only [obs, List.mem_append] at h
   rcases h with hA | hB
   · cases hooks <;> simp at hA
@@ -55,6 +58,6 @@ theorem good_obs (s s' : St) (e : Ev) (hi : Good s = true) (h : s' ∈ obs s e) 
       · cases upc <;> cases x <;> simp at hU <;> subst hU <;> close_inv
       · simp at hC; rcases hC with ⟨⟨⟨rfl, rfl⟩, rfl⟩, rfl⟩; close_inv
       · cases mpc <;> (try (rename_i a; cases a)) <;> cases x <;> simp at hM <;>
-          (first | (rcases hM with ⟨rfl, rfl⟩) | subst hM) <;> close_inv
+          (first | (rcases hM with ⟨⟨rfl, _⟩, rfl⟩) | (rcases hM with ⟨rfl, rfl | rfl⟩) | (rcases hM with ⟨rfl, rfl⟩) | subst hM) <;> close_inv
 
 end Opcua.ConnLts
